@@ -23,10 +23,10 @@ def exDb : List DbNode :=
 
 /-- F22: the all-zero key in front of the small integers `1 … m` (prefix 249 bits, first separator 1 bit), and a key that
 shares only 33 bits with them -/
-def f20Db (m : Nat) : List DbNode :=
+def f22Db (m : Nat) : List DbNode :=
   [⟨0, 1, exNode ((List.range (m + 1)).map fun i => (i, 100 + i))⟩]
 
-def f20Outsider : Nat := 2 ^ 222
+def f22Outsider : Nat := 2 ^ 222
 
 /-- the keys of a cluster (254-bit shared prefix region) and a key far away, for the `Update` that collapses the prefix -/
 def clKey (i : Nat) : Nat := 2 ^ 254 + 2 * i + 1
